@@ -11,7 +11,7 @@ EXTRA = ['-include', os.path.join(cjob.SHIM, 'host/osmocom/core/shim_extra.h')]
 LIBC = os.path.join(cjob.SHIM, 'libcmodel.c')
 STUBS_DOC = ['shim include directory for the modern libosmocore API trx_if.c uses (osmo_fsm_inst, LOGPFSM* as empty macros, osmo_load32be/osmo_store32be, GSM_TDMA_*, modern enum gsm_phys_chan_config)',
              'strlen/strchr/strncmp: C models in shim/libcmodel.c executed symbolically', 'sscanf("%d") and sscanf("%u %d"): C models (<= 9 digits)', 'read(): hands the harness datagram to the buffer, honours the size argument; for arbitrary control replies the uninitialised rest of the 1024-octet stack buffer is taken as zero (reads of uninitialised stack by strchr/sscanf after a reply without NUL/space are an undefined-behaviour note, not part of the claim)',
-             'send(): records the buffer', 'osmo_fsm_inst_state_chg/term, osmo_timer_*, talloc_free, trxcon_phyif_handle_*: recording stubs', 'snprintf/vsnprintf (command composition): NOT encoded - command texts are written by the harness from the format strings']
+             'send(): records the buffer', 'osmo_fsm_inst_state_chg/term, osmo_timer_*, talloc_free, trxcon_phyif_handle_*: recording stubs', 'snprintf in trx_if_cmd_setfh: Python model with C truncation semantics for %u/%d/%s and concrete arguments; trx_ctrl_cmd (vsnprintf): recording stub that formats the same way; for the other commands the texts are written by the harness from the format strings (command composition not encoded there)']
 _M = {}
 
 
